@@ -17,6 +17,9 @@ CHECKS = {
 CHECKS['C05'] = ('runtime oracle: bit-by-bit GLSL reference models; complete enumeration of 8/16-bit domains, structured + random 32/64-bit inputs; pure and SIMD builds',
          'All ten GLSL integer/bitfield functions, scalar and vec1..4, i8..u64, are evaluated on every 8/16-bit value crossed with every (offset,bits) pair and on single-bit / run-of-ones / boundary / random 32- and 64-bit values, each result compared with a loop-based model written from the GLSL text. The SMT equivalence mentioned in the quantifier is outside this technique family: for 32/64-bit widths the claim is held-on-N-inputs only.',
          TRUST, 'DESIGN.md 7/C05')
+CHECKS['C01'] = ('runtime differential oracle: vector overload vs scalar overload of the same glm function per component, over lattice^n and random inputs, all lengths/qualifiers',
+         'About 740 (function or operator, overload shape, element type) operations, each instantiated for vector lengths 1-4 and the qualifiers, are evaluated on special-value lattice tuples and random tuples; every component is compared with what the scalar overload returns (bitwise, or within the derived rounding bound for mix/smoothstep/mod/fma, or 2^-8 for lowp inversesqrt), and scalar/vec1 arguments are compared with the broadcast vector.',
+         TRUST + ' The scalar overload is the reference, as the statement says; its own correctness is C11/C05/C18 territory.', 'DESIGN.md 7/C01')
 REASONS = {}
 
 checks = []
